@@ -113,6 +113,12 @@ package core
 //@   ensures state: st != nil ==> fresh(st) && st.Bs != nil && st.NodeName == targetOf(b, st.Bs)
 //@   ensures[C04] plain: b.Pattern == nil && b.Guard == nil ==> err == nil && (bs == nil ? st == nil : st != nil && st.Bs == bs)
 //@   ensures[C04] noguardcall: b.Guard == nil ==> ncalls(core.Action.Exec) == old(ncalls(core.Action.Exec))
+// A guard allows the branch by returning non-nil bindings - empty ones
+// included - and these become the next state's bindings; the branch is
+// refused only if the (last) guard call returned no bindings.
+//@   ensures[C04] guardaccept: b.Guard != nil && st != nil ==> ncalls(core.Action.Exec) > old(ncalls(core.Action.Exec)) && st.Bs == lastret(core.Action.Exec, exe).Bs
+//@   ensures[C04] guardreject: b.Guard != nil && st == nil && err == nil && ncalls(core.Action.Exec) > old(ncalls(core.Action.Exec)) ==> lastret(core.Action.Exec, exe).Bs == nil
+//@   loop 0 invariant[C04] rejected: bs == nil && (ncalls(core.Action.Exec) > old(ncalls(core.Action.Exec)) ==> lastret(core.Action.Exec, exe).Bs == nil)
 //@   ensures[C18;profile=pure] perm: st != nil ==> permKept(bs, st.Bs)
 //@   ensures[;profile=pure] noalias: st != nil ==> st.Bs == bs || fresh(st.Bs)
 //@   loop 0 invariant fresh(ts) && fresh(ts.Messages)
